@@ -144,7 +144,7 @@ func genTimer(seed uint64, n int, path string) {
 		out.Line("case", strconv.Itoa(i), "timer")
 		if i == 1 {
 			// the client's own queue, delay 0: the order store-then-push under a real race
-			out.Line("rz", map[bool]string{true: "2500", false: "40000"}[n <= 100])
+			out.Line("rz", map[bool]string{true: "1500", false: "40000"}[n <= 100])
 			continue
 		}
 		if i == 0 {
